@@ -72,6 +72,18 @@ theorem dead_stays_step {c : Cfg} {s s' : State} {e : Ev} {a : Nat} (hs : step c
     rw [this]
     exact dead_stays ht hr ha hd
 
+theorem step_allocs_len {c : Cfg} {s s' : State} {e : Ev} (hs : step c s e = some s') :
+    s.allocs.length ≤ s'.allocs.length := by
+  cases e with
+  | spawn => simp only [step, Option.some.injEq] at hs; subst hs; exact Nat.le_refl _
+  | act t x =>
+    obtain ⟨tk, tk', ht, hact, hts⟩ := step_act_inv hs
+    clear hts
+    obtain ⟨tasks', tb, al⟩ := s'
+    have hr : ActR c s tk x tk' tb al := act_rel hact
+    clear hs hact
+    cases hr <;> simp
+
 theorem table_change {c : Cfg} {s s' : State} {e : Ev} (hI : Inv c s) (hs : step c s e = some s')
     {k : Slot} {a : Nat} (h1 : s.table k = some a) (h2 : s'.table k ≠ some a) : ¬ Live s a := by
   cases e with
